@@ -1109,6 +1109,11 @@ class Elemwise(Blockwise):
         # Pad index to full length
         full_index = index + (slice(None),) * (len(out_ind) - len(index))
 
+        # An integer index would turn out='s blocks into NumPy scalars, which a
+        # ufunc cannot write into: leave such a slice above the operation.
+        if hasattr(self.out, "ndim") and any(isinstance(i, Integral) for i in full_index):
+            return None
+
         # Build sliced inputs.  where= / out= arrays take part in the operation
         # block by block, so they are sliced like the other inputs (as
         # _accept_shuffle does).
